@@ -493,6 +493,10 @@ func (f *Fn) splice(b *cfg.Block, j int, site *InlSite) (inserted []*cfg.Block, 
 	}
 	g := cfg.New(fi.Decl.Body, func(c *ast.CallExpr) bool { return !NoReturn(info, c) })
 	cont = &cfg.Block{Nodes: append([]ast.Node{}, b.Nodes[j:]...), Succs: b.Succs, Live: true, Kind: cfg.KindInvalid, Stmt: b.Stmt}
+	// where the evaluation of node j starts now: the first binding of its first expanded call
+	if _, have := f.preOf[b.Nodes[j]]; !have {
+		f.preOf[b.Nodes[j]] = nodeRef{b, j}
+	}
 	b.Nodes = append(append([]ast.Node{}, b.Nodes[:j]...), binds...)
 	for _, cb := range g.Blocks {
 		inserted = append(inserted, cb)
